@@ -100,6 +100,15 @@ func zStreamValue(kind int, tag string, shared *ZInner) interface{} {
 		return string(rs)
 	case 12:
 		return float64(zSmall(tag)) + 0.25 // an 8-octet double
+	case 15: // a string in the three-octet 'S' form (1024..2048 characters)
+		rs := make([]rune, 1500)
+		for i := range rs {
+			rs[i] = rune('a' + i%26)
+		}
+		rs[1499] = rune('a' + zSmall(tag)%26)
+		return string(rs)
+	case 16: // 18 distinct classes: the last instances use the long 'O' form
+		return zManyClasses(18, zSmall(tag), 16)
 	case 13:
 		return zSharedList // the same list every time: later occurrences travel as back-references
 	case 14:
@@ -119,9 +128,20 @@ func zStreamEq(kind int, a, b interface{}) bool {
 	case 0:
 		x, ok := b.(int32)
 		return ok && x == a.(int32)
-	case 1, 10:
+	case 1, 10, 15:
 		x, ok := b.(string)
 		return ok && x == a.(string)
+	case 16:
+		x, ok := b.([]interface{})
+		want := a.([]interface{})
+		if !ok || len(x) != len(want) {
+			return false
+		}
+		same := true
+		for i := range want {
+			same = vAnd(same, zClassV(x[i]) == zClassV(want[i]))
+		}
+		return same
 	case 2, 4:
 		x, ok := b.(*ZInner)
 		return ok && x != nil && eqZInner(a.(*ZInner), x)
@@ -172,11 +192,11 @@ func H_C06_stream() {
 		n = 3
 	}
 	shared := &ZInner{N: 42, S: "shared"}
-	tm, nm := vExtractAll(&ZOuter{P: &ZInner{}}, []int32{}, map[string]int32{"k": 1})
+	tm, nm := vExtractAll(&ZOuter{P: &ZInner{}}, []int32{}, map[string]int32{"k": 1}, zManyClasses(19, 0, -1))
 	kinds := make([]int, n)
 	vals := make([]interface{}, n)
 	for i := range vals {
-		kinds[i] = vChoice("kind", 15)
+		kinds[i] = vChoice("kind", 17)
 		vals[i] = zStreamValue(kinds[i], "v", shared)
 	}
 	viaSerializer := vChoice("api", 2) == 1
